@@ -34,7 +34,7 @@ func (c17) Rule() string {
 		"Oracle: WriteSeq returns no error; the bytes written for each record are '>'+desc+LF followed by the residues in lines of exactly 70 columns (last line shorter), each ended by one LF (zero residues: empty line or nothing; exact multiple of 70: an extra blank line is tolerated); reading the LF text and the CRLF twin yields exactly k records, in order, each with the same description and the same residues when looked at after the whole stream was scanned, and Err()==nil; for GenBank inputs desc == Version + [':'(head+1)'-'tail] + ' ' + Definition and residues == the record's residues. " +
 		"Outside the quantifier and never generated: descriptions/versions/definitions containing LF or CR, residues containing '>' or white space, wrap-around slices. " +
 		"CLI layer: gts clear|reverse|complement|select gene|sort -F fasta --no-cache on streams of 1..3 generated GenBank records (lengths on the 70-column boundaries; CONTIG-only records for clear): the text is one FASTA record per input record with description VERSION+' '+DEFINITION and the residues the command implies in the exact layout, and fed back through gts clear -F fasta reads back the same; with -o name.{gb,genbank,fasta,txt,} the file holds the same bytes; for the other record-writing subcommands (delete, extract, rotate, split, insert, define, search, join, select, pick, sort) -F fasta prints well-formed FASTA, -F genbank prints GenBank, and -o writes exactly what stdout would get, whatever the extension; every third case also with the cache on. " +
-		"non-trivial: the stream has >= 2 records or a record longer than one line (n > 70); distinct: canonical case text (kinds, descriptions, lengths, residue generator parameters, writer). A third of the genbank / genbank-region values are the reader's value of the record's own flat-file text: LF, CRLF, and with secondary accessions in front of REGION."
+		"non-trivial: the stream has >= 2 records or a record longer than one line (n > 70); distinct: canonical case text (kinds, descriptions, lengths, residue generator parameters, writer). A third of the genbank / genbank-region values are the reader's value of the record's own flat-file text: LF, CRLF, and with secondary accessions in front of REGION. gts define / search / select -F fasta leave the residues of every record alone (spacer records of n/s/w among them)."
 }
 
 func (c17) RequiredBuckets(tier string) []string {
@@ -298,8 +298,18 @@ func c17viaText(gb seqio.GenBank, via int) gts.Sequence {
 		v, ok := sc.Value().(seqio.GenBank)
 		return v, ok
 	}
+	// a definition the flat file carries as it is: printable ASCII words with
+	// single blanks between them (a period of its own at the end included: the
+	// writer adds the terminating one, the reader takes that one off).
+	def := gb.Fields.Definition
+	simple := def == strings.Join(strings.Fields(def), " ")
+	for i := 0; i < len(def); i++ {
+		if def[i] < 32 || def[i] > 126 {
+			simple = false
+		}
+	}
 	plain, ok := read(text)
-	if !ok || plain.Fields.Version != gb.Fields.Version || plain.Fields.Definition != gb.Fields.Definition ||
+	if !ok || !simple || plain.Fields.Version != gb.Fields.Version ||
 		fmt.Sprint(plain.Fields.Region) != fmt.Sprint(gb.Fields.Region) || !bytes.Equal(plain.Bytes(), gb.Bytes()) {
 		return gb
 	}
